@@ -143,7 +143,7 @@ pub struct Cfg {
     pub spoof_pm: u64,
     /// only datagrams of at most this many bytes are used for spoofing (0 = any)
     pub spoof_max_len: usize,
-    /// number of distinct spoofed source addresses (10.77.77.1 .. 10.77.77.N, rotating; 0/1 = one address)
+    /// number of distinct spoofed source addresses (1.0.77.77 .. , rotating; 0/1 = one address)
     pub spoof_addrs: u64,
     /// the spoofed copy keeps only the first 21 bytes (flags + destination connection id) of the genuine datagram, the
     /// rest is random: it is routed to the connection but cannot be authenticated
